@@ -164,6 +164,7 @@ def run(chk):
         chk.ob("R4 cancellation", "R4|%s|no-await-after-mutation" % nm, not late and len(muts) >= 1, where(co, late[0].call_bb) if late else where(co),
                "awaits reachable after a completed store mutation: %s" % [short(a.callee() or "?") for a in late])
     strait = [t for t in p.traits.values() if t["path"].startswith("passkey_authenticator::") and t["path"].endswith("::CredentialStore")]
+    n_r8 = 0
     if strait:
         for im in p.impls_of(trait=strait[0]["path"]):
             if "tokio::sync" in im["self_ty"]:
@@ -189,7 +190,52 @@ def run(chk):
                                 writes.append("*self = ..")
                 chk.ob("R4 cancellation", "R4|%s::%s|atomic" % (st, item["name"]), len(co.yields()) == 0 and len(writes) == 1, where(co),
                        "suspension points: %d, container writes: %s" % (len(co.yields()), [short(w) for w in writes]))
+                # R8: what the shipped leaf stores write — the record they were given, under that record's own id, and
+                # nothing else: every call that receives the container by `&mut` is the one allowed writer
+                # (insert / replace), its value operand is the `cred` parameter itself and its key (if any) is that
+                # record's credential id. `retain`, `remove`, `entry(..).or_insert`, `clear`, `get_mut` … are other
+                # mutations (or conditional ones) and are reported with the callee printed.
+                T8 = flow.Terms(p, co)
+                SELF, CRED = ("upvar", 0), ("upvar", 1)
+                touching, good = [], 0
+                for bb, t in co.calls():
+                    if co.blocks[bb]["cleanup"]:
+                        continue
+                    for i, a in enumerate(t["args"]):
+                        pl = a.get("place") if isinstance(a, dict) else None
+                        ty = co.local_ty(pl["l"]) if pl and not pl["p"] else ""
+                        if not ty.startswith("&mut "):
+                            continue
+                        tm = T8.operand(a, bb, "t")
+                        if flow.term_contains(tm, lambda x: x == SELF):
+                            touching.append((bb, t, i))
+                            break
+                bad8 = []
+                for bb, t, i in touching:
+                    cal = core.callee_of(t)
+                    if names.call_is(t, "HashMap::insert") and i == 0 and len(t["args"]) == 3:
+                        key = T8.operand(t["args"][1], bb, "t"); val = T8.operand(t["args"][2], bb, "t")
+                        if val == CRED and key == ("field", CRED, "credential_id"):
+                            good += 1
+                        else:
+                            bad8.append("insert(key = %s, value = %s)" % (flow.term_str(key)[:80], flow.term_str(val)[:80]))
+                    elif names.call_is(t, "Option::replace", "Option::insert") and i == 0 and len(t["args"]) == 2:
+                        val = T8.operand(t["args"][1], bb, "t")
+                        if val == CRED:
+                            good += 1
+                        else:
+                            bad8.append("%s(value = %s)" % (short(cal), flow.term_str(val)[:80]))
+                    else:
+                        bad8.append("%s(&mut container, ..)" % short(cal))
+                whole = [w for w in writes if w == "*self = .."]
+                chk.ob("R8 leaf store writes the given record", "R8|%s::%s|writes-given-record-under-its-id" % (st, item["name"]),
+                       not bad8 and good + len(whole) == 1, where(co, touching[0][0]) if touching else where(co),
+                       "container accesses by &mut: %d; accepted writer (value = the record given, key = its credential id): %d; other: %s"
+                       % (len(touching), good, bad8))
+                n_r8 += 1
 
+    chk.require("R8 leaf store writes the given record", "R8|below-floor", n_r8 >= 4, "passkey-authenticator/src/credential_store.rs",
+                "save/update bodies of shipped leaf stores analysed: %d (counted by hand: 4 — MemoryStore and Option<Passkey>, two methods each)" % n_r8)
     # ---------------- R5 / R6
     du = flow.DefUse(ga)
     aws = flow.awaits(ga)
